@@ -4,3 +4,6 @@ import TeosVerif.Props.C08
 #print axioms Teos.C08.receipt_only_if_taken_stored
 #print axioms Teos.C08.readback
 #print axioms Teos.C08.update_in_place
+#print axioms Teos.C08.length_filter_split
+#print axioms Teos.C08.admin_view_partitions
+#print axioms Teos.C08.admin_user_is_what_the_user_sees
